@@ -319,6 +319,18 @@ func c13RunCase(cs c13Case, seed int64) c13Verdict {
 		k := c.ns + fmt.Sprint(r.Intn(3))
 		c.id++
 		val := makeValue(c.id, []int{0, 8, 120, 4000}[r.Intn(4)])
+		if cs.Mix == "empty-values" {
+			// empty values with non-zero flags, read often: a reply cut inside its extras has no
+			// body whose read would notice the broken connection
+			val = nil
+			if r.Intn(3) > 0 {
+				if r.Intn(2) == 0 {
+					return wire.Cmd{Op: "gat", Key: k, Opaque: r.Uint32()}
+				}
+				return wire.Cmd{Op: "get", Keys: []string{k}, Opaque: r.Uint32() >> 1}
+			}
+			return wire.Cmd{Op: "set", Key: k, Value: val, Flags: r.Uint32() | 0x01010101}
+		}
 		mget := func(nonquiet bool) wire.Cmd {
 			g := wire.Cmd{Op: "get", Opaque: r.Uint32() >> 1, NonQuiet: nonquiet, NoopEnd: !nonquiet}
 			for j := 0; j < 2+r.Intn(4); j++ {
@@ -512,6 +524,9 @@ func childC13(args []string) int {
 		for _, b := range []int{1, 24, 25, 40} {
 			add("mid", j, b)
 		}
+	}
+	for i := 0; i < run.Pick(8, 40); i++ {
+		cases = append(cases, c13Case{Pool: 1, Callers: []int{1, 4, 8}[i%3], Mix: "empty-values", Cut: "mid", J: i % 2, Bytes: 25 + i%7, Batch: []int{1, 4}[i%2]})
 	}
 	for i := 0; i < run.Pick(12, 60); i++ {
 		add("idle", 0, 0)
